@@ -46,7 +46,10 @@ KINDS = {
     "variable": ([], [("integer :: x", None), ("integer, public :: x", "public"), ("integer, private :: x", "private"),
                       ("integer, protected :: x", "protected"), ("INTEGER,PRIVATE::X", "private"),
                       ("real, dimension(3), private :: x", "private"), ("integer , Private :: x", "private"),
-                      ("real(8), allocatable, public :: x(:)", "public"), ("integer x", None)], [], "variables", "x", True),
+                      ("real(8), allocatable, public :: x(:)", "public"), ("integer x", None),
+                      # entity-level array / coarray / character-length specs are not part of the name
+                      ("character :: x*8", None), ("character :: x*8 = 'unset'", None), ("real :: x(3)", None), ("real :: x[*]", None),
+                      ("character, private :: x*4", "private")], [], "variables", "x", True),
     "parameter": ([], [("integer, parameter :: x = 1", None), ("integer, parameter, private :: x = 1", "private"),
                        ("integer, private, parameter :: x = 1", "private"), ("INTEGER, PARAMETER, PUBLIC :: X = 1", "public")],
                   [], "variables", "x", False),
